@@ -418,7 +418,9 @@ func TestDirectedSiblings(t *testing.T) {
 			if !vt.Mine(k) {
 				continue
 			}
-			for _, prep := range []string{"a := " + src, "a0 := " + src + "; a := a0 + a0[:0]", "a := " + src + "; a1 := a[:2]; a := a1"} {
+			for _, prep := range []string{"a := " + src, "a0 := " + src + "; a := a0 + a0[:0]", "a := " + src + "; a1 := a[:2]; a := a1",
+				// slices of a value that lives on (the parent must not change when its slice grows)
+				"par := " + src + "; a := par[:2]", "par := " + src + "; a := par[1:]; keep := [par, par[:1]]", "par := " + src + "; a := par[0:1]"} {
 				h := []string{prep, "b := " + fmt.Sprintf(op, "a"), "c := " + fmt.Sprintf(op, "a"), "d := " + fmt.Sprintf(strings.Replace(op, "7", "6", 1), "b"), "[a, b, c, d]"}
 				vt.Evals(len(h))
 				vt.Class("directed sibling history")
@@ -429,7 +431,7 @@ func TestDirectedSiblings(t *testing.T) {
 			}
 		}
 	}
-	vt.Exhaustive(fmt.Sprintf("%d growing operations x %d growable sources x 3 capacity-leaving preparations, applied twice", len(ops), len(growable)))
+	vt.Exhaustive(fmt.Sprintf("%d growing operations x %d growable sources x 6 preparations (capacity-leaving, slices of a value that lives on), applied twice", len(ops), len(growable)))
 }
 
 func TestReplay(t *testing.T) {
